@@ -168,6 +168,7 @@ class Runner:
     def __init__(self, ctx, tools, model):
         self.ctx, self.t, self.m = ctx, tools, model
         self.n_dirs = 0
+        self.dict = None          # dictionary (-D) of the case being checked, for the library oracle
         self.env = {k: v for k, v in os.environ.items() if not k.startswith("ZSTD_")}
 
     def fresh(self, case):
@@ -215,7 +216,12 @@ class Runner:
         fn = os.path.join(base, "in")
         with open(fn, "wb") as f:
             f.write(data)
-        rc, out, err = core.sh([self.t.lib, "classify", fn, os.path.join(base, "p")], timeout=120)
+        cmd = [self.t.lib, "classify", fn, os.path.join(base, "p")]
+        if self.dict is not None:
+            with open(os.path.join(base, "dict"), "wb") as f:
+                f.write(self.dict)
+            cmd.append(os.path.join(base, "dict"))
+        rc, out, err = core.sh(cmd, timeout=120)
         if rc != 0:
             raise RuntimeError("c19_lib classify failed: " + err[-500:])
         items = []
@@ -404,6 +410,7 @@ def prepare(rn, case):
             (pr.st if f[0] == "ST" else pr.si).append(st)
     pr.model_line = line0 + ",".join(probes)
     pr.events = canon_model(pr.ops)
+    pr.vis = [len(canon_model(pr.ops[:j])) for j in range(len(pr.ops) + 1)]
     pr.exit = int([o for o in pr.ops if o.startswith("exit:")][-1].split(":")[1]) if any(o.startswith("exit:") for o in pr.ops) else None
     # well-formedness (hypothesis of crash_safe): sources distinct, no destination is a source, destinations distinct
     srcs = case.srcs
@@ -478,11 +485,21 @@ def resolve_prefix(pr, zbytes, toks):
     return out
 
 
-def state_in(pr, zbytes, real, states):
+def state_in(pr, zbytes, real, states, nvisible=None):
+    """index j of a model state that matches the real directory; with nvisible: only prefixes of the model's
+    operation list that contain exactly that many visible (system-call level) operations are candidates"""
     for j, st in enumerate(states):
+        if nvisible is not None and pr.vis[j] != nvisible:
+            continue
         if all(node_matches(pr, zbytes, n, v, real.get(n)) for n, v in st.items()):
             return j
     return -1
+
+
+def visible_done(entries, k, inclusive, relevant):
+    """number of canonical events of the calls completed before (kill) / up to (signal) call #k"""
+    done = [e for e in entries if "act" not in e and (e["idx"] <= k if inclusive else e["idx"] < k)]
+    return len(canon_real(done, relevant))
 
 
 # ----------------------------------------------------------------------------- direct oracles
@@ -552,8 +569,11 @@ def fs_idx(entries, relevant):
 def check_case(rn, case, nkill, nint, rng, replay_only=None):
     """returns number of violations reported"""
     ctx = rn.ctx
+    rn.dict = case.files.get(case.extra[case.extra.index("-D") + 1]) if "-D" in case.extra else None
     pr = prepare(rn, case)
     relevant = set(pr.probes)
+    if "-D" in case.extra:
+        relevant.discard(case.extra[case.extra.index("-D") + 1])     # reading the dictionary is not part of the protocol
     nviol = 0
     zcache = {}
 
@@ -697,15 +717,19 @@ def check_case(rn, case, nkill, nint, rng, replay_only=None):
     for k in ks:
         kr = rn.execute(case, k=k, action="kill")
         kreal = read_dir(kr["w"])
-        j = state_in(pr, zbytes, kreal, pr.st)
+        acted = any("act" in e for e in kr["entries"])
+        nv = visible_done(kr["entries"], k, False, relevant) if acted else len(pr.events)
+        j = state_in(pr, zbytes, kreal, pr.st, nv)
         bad = (oracle_safe(rn, pr, kreal, zcache) if pr.wf else []) + oracle_noclobber(pr, kreal)
         ctx.count(("kill", case.shape(), j), nontrivial=True)
         for w_ in bad:
             report("kill", "killed at system call #%d: %s" % (k, w_),
                    dict(k=k, dir={n: (DIR if v == DIR else len(v)) for n, v in kreal.items()}))
         if j < 0 and not bad:
-            report("tie-kill", "directory after kill at system call #%d is no prefix state of fio_ops: %s" %
-                   (k, {n: (DIR if v == DIR else len(v)) for n, v in kreal.items()}), dict(k=k), no_input=True)
+            report("tie-kill", "directory after kill at system call #%d (%d file operations completed) is not the state of fio_ops after that many operations: %s" %
+                   (k, nv, {n: (DIR if v == DIR else len(v)) for n, v in kreal.items()}), dict(k=k), no_input=True)
+            rn.cleanup(kr)
+            return nviol
         rn.cleanup(kr)
         if bad:
             return nviol
@@ -722,7 +746,13 @@ def check_case(rn, case, nkill, nint, rng, replay_only=None):
             for k in ks:
                 kr = rn.execute(case, k=k, action="int", wide=True)
                 kreal = read_dir(kr["w"])
-                j = state_in(pr, zbytes, kreal, pr.si + pr.st)
+                acted = any("act" in e for e in kr["entries"])
+                if acted:
+                    # the handler's own calls come after the ACT mark: count only what the run did up to call #k
+                    nv = visible_done(kr["entries"], k, True, relevant)
+                else:
+                    nv = len(pr.events)
+                j = state_in(pr, zbytes, kreal, pr.si, nv)
                 bad = (oracle_safe(rn, pr, kreal, zcache) if pr.wf else []) + oracle_noclobber(pr, kreal)
                 st = kr["status"]
                 handled = st == ("EXIT", 2)
@@ -730,8 +760,10 @@ def check_case(rn, case, nkill, nint, rng, replay_only=None):
                 for w_ in bad:
                     report("sigint", "SIGINT at system call #%d (wide grid): %s" % (k, w_), dict(k=k))
                 if j < 0 and not bad:
-                    report("tie-sigint", "directory after SIGINT at system call #%d is no state of sigint_ops: %s" %
-                           (k, {n: (DIR if v == DIR else len(v)) for n, v in kreal.items()}), dict(k=k), no_input=True)
+                    report("tie-sigint", "directory after SIGINT at system call #%d of the wide grid (%d file operations completed) is not a state of sigint_ops after that many operations: %s" %
+                           (k, nv, {n: (DIR if v == DIR else len(v)) for n, v in kreal.items()}), dict(k=k), no_input=True)
+                    rn.cleanup(kr)
+                    return nviol
                 rn.cleanup(kr)
                 if bad:
                     return nviol
@@ -1035,8 +1067,12 @@ def run(ctx):
         "boundaries, >1 GiB stored skips) driven through AIO_fwriteSparse/End vs the model call by call. distinct_nontrivial counts distinct signatures "
         "(kind, invocation shape, model operation-kind sequence | matched model prefix state index | sparse op-kind sequence); a trace is trivial if the model "
         "predicts no file operation besides exit.")
+    import glob
     import time
     t0 = time.time()
+    if not ctx.replay_file:
+        for old in glob.glob(os.path.join(core.REPLAY, "C19-*.json")):      # replay files of earlier runs
+            os.unlink(old)
     tools = build_tools()
     core.log("C19 tools built %.1fs" % (time.time() - t0))
     r = ctx.prove()
@@ -1061,7 +1097,7 @@ def run(ctx):
         nviol += check_cli_sparse(rn, g, not quick)
         core.log("C19 CLI sparse/no-sparse done %.1fs" % (time.time() - t0))
         cases = corpus(g)
-        nrand = 10 if quick else 120
+        nrand = 24 if quick else 150
         for i in range(nrand):
             cases.append(random_case(g, i, big=(not quick and i % 10 == 0)))
         if not quick:
@@ -1074,11 +1110,8 @@ def run(ctx):
             cases.append(Case("c-dict", "C", ["a"], rm=True, extra=["-D", "dict"], files={"a": text(rng, 3000), "dict": dic}))
         hist = {}
         for ci, case in enumerate(cases):
-            if "-D" in case.extra:
-                # dictionary runs: the library harness has no dictionary: only kill-point safety + trace (compress side)
-                pass
             corpus_case = not case.name.startswith("rnd")
-            nk = None if not quick else (10 if corpus_case else 5)
+            nk = None if not quick else (12 if corpus_case else 6)
             ni = (4 if corpus_case else 2) if quick else 12
             if case.name in ("c-rm", "d-rm", "d-corrupt-rm", "c-exists-force-rm"):
                 ni = 10 ** 6          # every SIGINT point of the basic --rm runs, in both tiers
